@@ -603,8 +603,34 @@ def check(ctx, tag='', **kw):
            '~enable must clear %s against every other writer (stale link state would survive link re-entry)' % role)
 
 
+def check_raw(ctx):
+    """The serialiser must work from a private copy of the header taken when the packet is started: PacketTransmitter
+    presents buffers[read_pointer], and an LBAD rewinds read_pointer at once -- also while a later header is on the wire."""
+    C = 'RawPacketTransmitter'
+    ir = ctx.ir(C, 'usb3.link.transmitter')
+    fsm = ctx.the_fsm(ir)
+    H = 'self.header'
+    ctx.need(any(n == H or n.startswith(H + '.') for n in ir.signals), 'header input of ' + C)
+    lat = [a for a in ir.assigns if a.domain != 'comb' and isinstance(a.rhs, E) and a.rhs.canon() == H]
+    ok = bool(lat) and all(q.state_of(a) == fsm.init for a in lat)
+    ctx.ob('C39.header-latched', C + '.header-register', ok, lat[0].loc if lat else fsm.state_loc[fsm.init],
+           'the header to be sent must be copied into a register in the idle state when the packet is started: %s' % [q.fmt(a) for a in lat])
+
+    def reads_live(item):
+        es = [l.e for l in item.guard if isinstance(l.e, E)]
+        if getattr(item, 'kind', '') == 'assign' and isinstance(item.rhs, E):
+            es.append(item.rhs)
+        return any(n == H or n.startswith(H + '.') for e in es for n in e.sigs())
+    live = [it for it in list(ir.assigns) + list(fsm.edges) if it.state is not None and it.state[1] != fsm.init and reads_live(it)]
+    ctx.ob('C39.header-latched', C + '.no-live-header-while-sending', not live, live[0].loc if live else fsm.loc,
+           'outside the idle state nothing may read the header input directly (it changes under the serialiser when an LBAD '
+           'rewinds the read pointer): the words, the sequence number, DL and the CRC-5 of one header packet would come from '
+           'two different queued headers: %s' % [q.fmt(x) for x in live[:3]])
+
+
 def run(ctx):
     check(ctx)
+    check_raw(ctx)
     if ctx.tier == 'thorough':
         check(ctx, tag='buffer_count=2', buffer_count=2)
         check(ctx, tag='buffer_count=8', buffer_count=8)
